@@ -109,17 +109,21 @@ def outcome(thunk, spec, t, use_glommer=False):
     try:
         if use_glommer:
             v = G[0].glom(t, spec, glom_debug=True)
+        elif thunk in (16, 17):
+            v = glom(t, spec)                 # the normal exit path: the error is wrapped so that it is also a GlomError
         else:
             v = glom(t, spec, glom_debug=True)
     except GlomError as e:
         return ('err', type(e).__name__, getattr(e, 'part_idx', None), isinstance(e, ERR_A), isinstance(e, ERR_B))
+    except (ERR_A, ERR_B) as e:
+        return ('err-unwrapped', type(e).__name__, isinstance(e, ERR_A), isinstance(e, ERR_B))
     return ('ok', v)
 
 
 def same_outcome(a, b):
     if a[0] != b[0]:
         return False
-    if a[0] == 'err':
+    if a[0] != 'ok':
         return a[1:] == b[1:]
     return a[1] == b[1] and type(a[1]) is type(b[1])
 
